@@ -70,9 +70,9 @@ func VxC01Sync() {
 	if snapshot {
 		info.offset = WALHeaderSize
 	}
-	// the per-round byte budget (MaxSyncWALBytes): off, or one frame - which stops an
-	// incremental copy at the first commit frame; a snapshot must ignore it, or it
-	// would mix the database file with a prefix of the WAL
+	// the per-round byte budget (MaxSyncWALBytes): off, or one frame - which lets an
+	// incremental copy stop at an earlier commit frame; a snapshot must ignore it, or
+	// it would mix the database file with a prefix of the WAL
 	var budget int64
 	if vx.Fault("budget") {
 		budget = fs
@@ -90,20 +90,27 @@ func VxC01Sync() {
 		scanned = g.frames
 		start = 0
 	}
-	// with the budget on, an incremental copy ends with the first commit frame:
-	// frames after it are as if they were not there yet
-	moreCommitted := false // committed frames the bounded copy left for the next round
-	if budget > 0 && !snapshot {
-		cut := make([]vxFrame, len(scanned))
-		copy(cut, scanned)
-		before := false
-		for i := range cut {
-			moreCommitted = vx.Or(moreCommitted, vx.And(before, scanned[i].commit != 0))
-			cut[i].commit = vx.IteU32(before, 0, cut[i].commit)
-			cut[i].pgno = vx.IteU32(before, 0, cut[i].pgno) // page 0 is never the witness page
-			before = vx.Or(before, scanned[i].commit != 0)
+	// Where the round stopped is taken from what it reports (the synced offset): it
+	// must be a commit boundary of the scanned range, and what it published must be
+	// the committed state up to there. Which commit boundary a bounded round picks is
+	// its own business; an unbounded round and a snapshot must reach the last one.
+	moreCommitted := false // committed frames this round left for the next one
+	if res.synced {
+		covered := int((int64(vx.Concrete(uint64(res.newWALSize))) - WALHeaderSize - int64(start)*fs) / fs)
+		vx.Assert("round-stops-inside-the-scanned-range", covered >= 0 && covered <= len(scanned))
+		if covered < 0 || covered > len(scanned) {
+			return
 		}
-		scanned = cut
+		if covered > 0 {
+			vx.Assert("round-stops-at-a-commit-frame", scanned[covered-1].commit != 0)
+		}
+		for i := covered; i < len(scanned); i++ {
+			moreCommitted = vx.Or(moreCommitted, scanned[i].commit != 0)
+		}
+		if budget == 0 || snapshot {
+			vx.Assert("unbounded-round-reaches-the-last-commit", vx.Not(moreCommitted))
+		}
+		scanned = scanned[:covered]
 	}
 	lastCommit := -1
 	anyCommit := false
